@@ -6,6 +6,7 @@ import Driver.LsmCmd
 import Driver.DurCmd
 import Driver.ProtoCmd
 import Driver.FilesCmd
+import Driver.SchedCmd
 /-
 `raindrv`: one request per line on stdin, one answer per line on stdout.
 Unknown or malformed requests answer `bad-request` (never a default value).
@@ -25,6 +26,7 @@ def dispatch (toks : List String) : String :=
       else if cmd.startsWith "dur." then durCmd toks
       else if cmd.startsWith "proto." then protoCmd toks
       else if cmd.startsWith "files." then filesCmd toks
+      else if cmd.startsWith "sched." then schedCmd toks
       else none
     match r with
     | some s => s
